@@ -8,12 +8,22 @@ PARTIAL = [
     "WellFormed = check() passes, total demand <= total capacity, and 3*|cost| < INT_MAX for every stored fixed-point cost. "
     "The cost bound is necessary (theorem ssp_cost_bound_needed: beyond it the INT_MAX sentinel of bestSink is passed and the model "
     "returns a suboptimal plan; in the C++ such sums overflow int); the driver evaluates it on every explored instance (`bound ok`)",
-    "float costs: costsFromIntegers is executed with IEEE doubles in the model and compared entry by entry; that its output always "
-    "satisfies the cost bound (|cost| <= INT_MAX/(4*nbSinks) + 1/2) is NOT proved (Lean Float is opaque) but checked per instance "
-    "(`bound ok`); the theorems speak about the stored fixed-point integer costs, optimality in the real-valued costs holds up to the "
-    "rounding bound checked by the direct oracle",
-    "what remains per-instance rather than universal: the tie between model and C++ (correspondence stream), C++ int/long long "
-    "overflow freedom (UBSan on the explored domain; the theorems are over unbounded Int)",
+    "float costs: the cost bound is now PROVED for every input of the float constructor's domain (costsFromFloats_bound: |cost| <= 2^29), "
+    "over an exact model of costsFromIntegers (Model/TranspFloat.lean: float max, three binary64 divisions, binary64 product, std::round, "
+    "each rounding explicit - Model/F64.lean round-to-nearest-even with gradual underflow); hence ssp_optimal_float / "
+    "ssp_optimal_float_inc (constructor; increaseCapacity; solve as in DensityLegalizer::reoptimize) need no per-instance check. "
+    "Domain = floatCostsOk: <= 2^31 sinks, every cost <= FLT_MAX and >= -nbSinks*maxVal (all finite non-negative matrices; values need "
+    "not even be floats). NaN / +-inf are outside (no rational counterpart; in the C++ they end in an undefined double->int conversion, "
+    "C07's subject); finite negative costs below -nbSinks*maxVal are outside and the bound really fails there "
+    "(float_precondition_needed: [[1,-2]])",
+    "optimality for float inputs is optimality w.r.t. the SCALED integer costs round(c*factor); w.r.t. the original real-valued costs "
+    "the returned plan is within 2*(1/2+2^-24)*totalDemand/factor <= 2*totalDemand*(3/4)*(4*nbSinks*maxVal/INT_MAX) of every feasible "
+    "plan (theorem float_optimality_gap, exact rational objective) - not exactly optimal: plans whose real costs differ by less than "
+    "that granularity may be ranked either way. The direct oracle checks the same bound against a long-double brute-force optimum",
+    "what remains per-instance rather than universal: the tie between model and C++ (correspondence stream: scaled costs compared "
+    "entry by entry, `fdomain` computed independently on both sides), C++ int/long long overflow freedom (UBSan on the explored "
+    "domain; the theorems are over unbounded Int), and that the compiler evaluates the float code as written (x86-64 SSE2, "
+    "FLT_EVAL_METHOD 0, no fast-math) - supported by the bit-for-bit agreement of the scaled costs on all generated families",
 ]
 ASSUMPTIONS = [
     "C++ long long / int arithmetic modelled as unbounded Int; INT_MAX sentinel kept literally; generators keep |cost| <= INT_MAX/(8*sinks) "
@@ -21,7 +31,8 @@ ASSUMPTIONS = [
     "std::priority_queue modelled operation-for-operation after libstdc++ 12 bits/stl_heap.h (make_heap/push_heap/pop_heap), "
     "because heap order among equal costs decides which source is moved",
     "std::sort on distinct (-demand, index) pairs = the unique sorted order (List.mergeSort)",
-    "Lean Float = IEEE binary64 with C round(); float inputs cross as the bits of (double)cost",
+    "IEEE-754 binary64 round-to-nearest-even for `/` and `*` on double, exact float->double and size_t->double (< 2^53) conversions, "
+    "std::round = half away from zero; float inputs cross as the bits of (double)cost and are decoded exactly (ratOfBits64)",
     "large demands are explored as small instances scaled by a common factor up to 2^36 (solve() is pseudo-polynomial: "
     "rounds ~ demand / smallest allocation on the chain)",
 ]
@@ -33,11 +44,18 @@ LEVEL_TEXT = ("Lean 4 theorems, all inputs of any size, over an executable model
               "correctness, dual potentials from sendingCost_ with non-negative reduced costs, tight acyclic tree; final potentials "
               "accepted by the verified checker checkCert, optimality by weak duality cert_optimal); ssp_feasible for every returned plan "
               "without the cost bound; toAssignment = first argmax on the solver's plan; increaseCapacity covers the demand. "
-              "The model is tied to the C++ entry by entry (allocations, scaled costs, capacities, assignment) on exhaustive tiny grids and "
-              "random instances up to 16 sinks x 300 sources and magnitudes to 2^40, answers `cert ok` and `bound ok` on each; the direct "
-              "oracle checks feasibility, argmax and the brute-force optimum on the real output")
+              "Float constructor: costsFromFloats_bound — for every finite cost matrix with costs >= -nbSinks*maxVal (all non-negative ones) the "
+              "fixed-point scaling, modelled operation by operation with explicit IEEE binary64 rounding over exact rationals, stores "
+              "|cost| <= 2^29, so ssp_optimal_float / ssp_optimal_float_inc hold for all float inputs without a per-instance check; "
+              "float_optimality_gap bounds the loss w.r.t. the original real-valued costs by 2*(1/2+2^-24)*totalDemand/factor. "
+              "The model is tied to the C++ entry by entry (allocations, scaled costs, capacities, assignment, float domain) on exhaustive "
+              "tiny grids and random instances up to 16 sinks x 300 sources and magnitudes to 2^40, float costs over the whole finite range "
+              "(zeros, subnormals, all below 1e-8f, full 24-bit mantissas, decimals/thirds, spreads beyond 1e30, FLT_MAX, negatives inside "
+              "and just outside the domain), answers `cert ok` and `bound ok` on each; the direct oracle checks feasibility, argmax, the "
+              "brute-force optimum, |scaled cost| <= 2^29 and |scaled cost - cost*factor| <= 1/2+2^-24 on the real output")
 LEVEL_NOTE = ("Trusted: Lean kernel (axioms propext/Classical.choice/Quot.sound only), the hand-written model's tie to the code "
               "(differential, bounded by the generator), unbounded Int for C++ integers, libstdc++ heap algorithms as transcribed "
               "(their heap/permutation properties are proved). The fuel of updateTree was re-parameterised to the proved bound "
-              "nbSinks*2^31+1 (outputs unchanged). Float cost scaling satisfying the cost bound is per-instance, see partial_clauses.")
-TECHNIQUE = "Lean 4 proofs (successive-shortest-path invariant: heaps, lazy queues, dual potentials, label-correcting tree, weak duality) + verified certificate checker and cost-bound check run per instance + model/implementation correspondence stream + brute-force oracle"
+              "nbSinks*2^31+1 (outputs unchanged). Float cost scaling: the IEEE rounding model of Model/F64.lean (facts proved in "
+              "Proofs/F64.lean) and that the compiled code performs exactly the written double operations.")
+TECHNIQUE = "Lean 4 proofs (successive-shortest-path invariant: heaps, lazy queues, dual potentials, label-correcting tree, weak duality; floating-point error analysis of the fixed-point cost scaling over an explicit IEEE model) + verified certificate checker and cost-bound check run per instance + model/implementation correspondence stream + brute-force oracle"
